@@ -151,10 +151,11 @@ TrPersist ==
   /\ IsEv("persist")
   /\ IF Ev.err THEN UNCHANGED <<segs, files, lcm>> ELSE Persist(Ev.sid, Ev.file)
   /\ LET PersistBad ==
-           IF Ev.err THEN {<<"persist-error">>}
+           IF Ev.err THEN {<<"persist-error">>} \cup IfBad(Ev.stray # 0, <<"stray-files", Ev.stray>>)
            ELSE IfBad(~Ev.exists, <<"no-file">>)
                 \cup IfBad(~Ev.same \/ Ev.wn # Ev.flen, <<"writeto-differs">>)
                 \cup IfBad(~Ev.crcok, <<"crc">>)
+                \cup IfBad(Ev.stray # 0, <<"stray-files", Ev.stray>>)
                 \cup (IF Ev.exists THEN CheckFooter(segs[Ev.sid].c, Ev.foot) ELSE {})
      IN  nbad' = nbad + Report("persist", PersistBad)
                       + Report("layout", IF Ev.err THEN {} ELSE LayoutBad(segs[Ev.sid].c, Ev.bytes, Ev.path))
@@ -180,11 +181,12 @@ TrMerge ==
      IN
      IF Ev.err # "" \/ Ev.panic # ""
      THEN UNCHANGED <<segs, files, lcm>>
-          /\ Step(tag, IfBad(~Ev.engine \/ Ev.panic # "", <<"merge-error", Ev.err, Ev.panic>>) \cup IfBad(Ev.exists, <<"file-left">>))
+          /\ Step(tag, IfBad(~Ev.engine \/ Ev.panic # "", <<"merge-error", Ev.err, Ev.panic>>) \cup IfBad(Ev.exists \/ Ev.stray # 0, <<"file-left", Ev.exists, Ev.stray>>))
      ELSE /\ Merge(Ev.file, Ev.ins, Ds, Ev.mode)
           /\ l' = l + 1
           /\ nbad' = nbad + Report(tag, IfBad(Ev.maps # MergedMaps(cs, Ds), <<"maps", Ev.maps>>)
-                                         \cup IfBad(~Ev.exists \/ Ev.size # Ev.flen, <<"size", Ev.size, Ev.flen>>))
+                                         \cup IfBad(~Ev.exists \/ Ev.size # Ev.flen, <<"size", Ev.size, Ev.flen>>)
+                                         \cup IfBad(Ev.stray # 0, <<"stray-files", Ev.stray>>))
                            + Report("layout", LayoutBad(MergeResult(Ev.ins, Ds, Ev.mode), Ev.bytes, Ev.path))
 
 \* random doc-value visits with one reused visit state (also across segments)
